@@ -64,11 +64,23 @@ def workload(tier: str, seed: int) -> tuple[list[dict], list[dict], list[dict], 
         ast = gen.random_counts_def(rngc)
         cdefs.append({"name": f"cnt{i}", "kind": "counts", "ast": ast,
                       "tags": sorted(gen.tags_of(ast) | {"beyond-F", "counts"})})
+    nfam = 0
+    fam = gen.counts_family()
+    if tier == "quick":
+        start = (seed * 12) % len(fam)
+        fam = (fam + fam)[start:start + 12]
+    for i, ast in enumerate(fam):
+        nfam += 1
+        cdefs.append({"name": f"cntfam{i}", "kind": "counts", "ast": ast,
+                      "tags": sorted(gen.tags_of(ast) | {"beyond-F", "counts", "counts-family"})})
     cbase, _cs = lcase.s1_cases(cdefs, seed, k_list=(2,), schedules=1)
     ncounts = 0
     for g, b in enumerate(cbase):
         n = len(b["jobs"])
-        for si, sp in enumerate(splits_of(n, rng, 0, 2)):
+        fam_def = "counts-family" in b["tags"]
+        # the deterministic family: every split of small job sets (which count is first seen
+        # after a reload matters), a larger sample otherwise
+        for si, sp in enumerate(splits_of(n, rng, 4 if fam_def else 0, 6 if fam_def else 2)):
             ncounts += 1
             cases.append({"group": 10**6 + g, "name": b["name"], "kind": b["kind"],
                           "src": b["src"], "tags": b["tags"], "jobs": b["jobs"], "split": sp,
@@ -76,6 +88,7 @@ def workload(tier: str, seed: int) -> tuple[list[dict], list[dict], list[dict], 
                           "uuid_seed": f"{seed}-c{g}-{si}", "rng_seed": f"{seed}-c{g}-{si}",
                           "work_dir": wd, "cap": 1200})
     stats["histories_with_counts_model_only"] = ncounts
+    stats["counts_family_definitions"] = nfam
     stats["definitions"] = len(defs)
     stats["histories"] = len(cases)
     stats["histories_with_pure_reload"] = sum(1 for c in cases if not c["split"][-1])
